@@ -174,7 +174,7 @@ let sim_one (seed : int) (maxsteps : int) (fail : string -> unit) : int * int =
   (!steps, !collects)
 
 let string_of_loc = function
-  | A.LTid s -> Printf.sprintf "tid %d" (int_of_nat s) | A.LBit s -> Printf.sprintf "bit %d" (int_of_nat s)
+  | A.LTid s -> Printf.sprintf "tid %d" (int_of_nat s) | A.LTidPlain s -> Printf.sprintf "tid-plain %d" (int_of_nat s) | A.LBit s -> Printf.sprintf "bit %d" (int_of_nat s)
   | A.LList s -> Printf.sprintf "list %d" (int_of_nat s) | A.LCount sp -> "count " ^ string_of_n sp
   | A.LFlag s -> Printf.sprintf "flag %d" (int_of_nat s) | A.LTfree s -> Printf.sprintf "tfree %d" (int_of_nat s)
   | A.LLock sp -> "lock " ^ string_of_n sp | A.LVLock sp -> "vlock " ^ string_of_n sp
